@@ -35,14 +35,14 @@ def run_store(case):
 
     KEYS = ["k0", "k1"]
 
-    def mkbuf(kind, cap):
+    def mkbuf(kind, cap, p=1.0):
         if kind == "seq":
             return SequentialBuffer(cap)
         if kind == "rr":
-            return RandomReplacementBuffer(cap)
+            return RandomReplacementBuffer(cap, replace_probability=p)
         if kind == "dseq":
             return DictSequentialBuffer(KEYS, cap)
-        return DictRandomReplacementBuffer(KEYS, cap)
+        return DictRandomReplacementBuffer(KEYS, cap, replace_probability=p)
 
     def sample(kind, i):
         return {k: i * 16 + n for n, k in enumerate(KEYS)} if kind.startswith("d") else i
@@ -119,7 +119,7 @@ def run_store(case):
     tmp = tempfile.mkdtemp(prefix="c05_")
     try:
         # ---- side A: the components that get saved
-        usersA = DataUsersDict.from_data_buffers({f"u{i}": mkbuf(u["kind"], u["cap1"]) for i, u in enumerate(case["users"])})
+        usersA = DataUsersDict.from_data_buffers({f"u{i}": mkbuf(u["kind"], u["cap1"], u.get("p", 1.0)) for i, u in enumerate(case["users"])})
         colls = usersA.data_collectors_dict
         import random as _r
         _r.seed(case.get("seed", 0))
@@ -165,7 +165,7 @@ def run_store(case):
                   "versions": [modelsA.inference_models_dict[f"m{i}"].infer() if False else modelsA[f"m{i}"].v for i in range(len(case["models"]))],
                   "agents": agentA.flat(), "clock": fr(tcA.time())}
         # ---- side B: freshly constructed, then loaded
-        usersB = DataUsersDict.from_data_buffers({f"u{i}": mkbuf(u["kind"], u["cap2"]) for i, u in enumerate(case["users"])})
+        usersB = DataUsersDict.from_data_buffers({f"u{i}": mkbuf(u["kind"], u["cap2"], u.get("p", 1.0)) for i, u in enumerate(case["users"])})
         trainersB = TrainersDict({f"t{i}": Tr() for i, _ in enumerate(case["trainers"])})
         modelsB = TrainingModelsDict({f"m{i}": TM(-7) for i, _ in enumerate(case["models"])})
         infB = modelsB.inference_models_dict
